@@ -210,8 +210,8 @@ PROPS = {
         "profiles": {"quick": [], "thorough": []},
         "py_leg": "c19_cli",
         "floors": {
-            "quick": {"cli_wmc": 700, "cli_formula_to_bdd": 350, "cli_cnf_to_bdd": 350, "cli_with_configured_order": 400},
-            "thorough": {"cli_wmc": 17000},
+            "quick": {"cli_wmc": 2100, "cli_formula_to_bdd": 1050, "cli_cnf_to_bdd": 1050, "cli_with_configured_order": 1200},
+            "thorough": {"cli_wmc": 28000},
         },
         "rule": "One evaluation = one invocation of a binary built from /repo with --features cli (cargo build into /verif/target/repo) on generated input files. weighted_model_count (single-count mode, no partials): random s-expression over <= 7 named variables (names chosen so that lexicographic order differs from first-occurrence and numeric order), a weights file with dyadic weights (normalised or arbitrary eighths in [0,1.5]) that sometimes omits a formula variable (documented default 0/0) and sometimes names extra variables, and in 60% of the cases a config with a random order over all variables; expected = number of models and exact weighted sum (fractions.Fraction) over formula + weight-file variables; the printed float is converted exactly and must equal the sum. bottomup_formula_to_bdd (linear or manual order) and bottomup_cnf_to_bdd (--order auto_minfill / auto_force): the emitted JSON is read by the independent Python node-table reader and must denote the input formula (lexicographic numbering) / CNF (0-based). A non-zero exit status on an in-domain input is a violation. Non-trivial = the formula is neither valid nor unsatisfiable; distinct = distinct inputs.",
         "assumptions": ASSUME_COMMON + ["the configured order lists every variable (formula and weight-file) exactly once; CNFs have at least one clause and no empty clause (S9)"],
@@ -229,3 +229,22 @@ PROPS = {
         "assumptions": ASSUME_COMMON + ["the harness's extern declarations mirror the C prototypes (repr(C) structs re-declared with the same layout)", "the API has no free function for diagram handles: leak checking is off for this workload (S15)"],
     },
 }
+
+
+# ---------------------------------------------------------------------------
+# Quick-tier volume.  The workloads are cheap, so the quick tier runs a multiple of
+# the base case counts (still well under a minute per check); the floors of the
+# scaled counters are raised by half that factor.
+QUICK_SCALE = {"C01": 4, "C02": 8, "C03": 10, "C04": 8, "C05": 5, "C06": 5, "C07": 5, "C08": 10, "C09": 10, "C10": 5,
+               "C11": 5, "C12": 10, "C13": 1, "C14": 5, "C15": 5, "C16": 5, "C17": 5, "C18": 8}
+UNSCALED = {"exh3_blocks", "exh3_orders", "domains_exhaustive", "shapes_enumerated", "edge_cases", "default_table_growths",
+            "big_rederivations", "triples", "pairs", "lattice_pairs", "field_sub_pairs"}
+for _pid, _k in QUICK_SCALE.items():
+    _c = PROPS[_pid]
+    _c.setdefault("scale", {})["quick"] = _k
+    _c["scale"]["thorough"] = max(_c["scale"].get("thorough", 1), _k * 8)
+    if _k > 1:
+        _f = _c.get("floors", {}).get("quick", {})
+        for _name in list(_f):
+            if _name not in UNSCALED:
+                _f[_name] = int(_f[_name] * _k / 2)
